@@ -200,14 +200,14 @@ try:
 except Exception:
     pass
 
-def build_unit(src, out_path, stub_fns=(), drop_uses=(), drop_contract_fns=(), ext_consts=(), renames=None, inline_fns=()):
+def build_unit(src, out_path, stub_fns=(), drop_uses=(), drop_contract_fns=(), ext_consts=(), renames=None, inline_fns=(), drop_hints=()):
     os.environ["VERIF_REPO_SRC"] = src
     extract.REPO_SRC = src
     specs = sorted(glob.glob(os.path.join(VERIF, "contracts", "*.vspec")))
     shims = sorted(glob.glob(os.path.join(VERIF, "shims", "*.rs"))) + sorted(glob.glob(os.path.join(VERIF, "specs", "*.rs")))
     rx = re.compile(CONFIG["exclude"]) if CONFIG.get("exclude") else None
     inc = (lambda rel: not rx.search(rel)) if rx else None
-    return extract.build(inc, (), specs, shims, out_path, stub_fns=stub_fns, drop_uses=drop_uses, drop_contract_fns=drop_contract_fns, ext_consts=ext_consts, renames=renames, inline_fns=inline_fns, baseline_params=BASELINE_PARAMS)
+    return extract.build(inc, (), specs, shims, out_path, stub_fns=stub_fns, drop_uses=drop_uses, drop_contract_fns=drop_contract_fns, ext_consts=ext_consts, renames=renames, inline_fns=inline_fns, baseline_params=BASELINE_PARAMS, drop_hints=drop_hints)
 
 def obligations_for(ctx):
     """named obligations per property: labelled ensures clauses + one body-safety obligation per fn tagged safety=..."""
@@ -254,13 +254,13 @@ def main(argv):
     baseline = {}
     bp = os.path.join(VERIF, "baseline_fns.json")
     if os.path.exists(bp): baseline = json.load(open(bp))
-    stub = set(); drop_uses = set(); stub_reason = {}; drop_contracts = set(); ext_consts = set(); renames = {}; inline_fns = set(); inline_tried = False
+    stub = set(); drop_uses = set(); stub_reason = {}; drop_contracts = set(); ext_consts = set(); renames = {}; inline_fns = set(); inline_tried = False; drop_hints = set()
     base_sigs = {}
     if os.path.exists(os.path.join(VERIF, "baseline_sigs.json")): base_sigs = json.load(open(os.path.join(VERIF, "baseline_sigs.json")))
     runs = []; undecided = None; base = None
     for attempt in range(10):
         try:
-            text, lines_meta, ctx = build_unit(a.src, unit, stub, drop_uses, drop_contracts, ext_consts, renames, inline_fns)
+            text, lines_meta, ctx = build_unit(a.src, unit, stub, drop_uses, drop_contracts, ext_consts, renames, inline_fns, drop_hints)
         except extract.ExtractError as e:
             return global_fallback(a, props, claimed, "extraction failed: %s" % e)
         lmap = LineMap(lines_meta)
@@ -292,7 +292,12 @@ def main(argv):
             progressed = False
             for fe in frontend:
                 m = lmap.at(fe["line"]) if fe["line"] else None
-                if m and m.get("fn") and m.get("part") in ("body", "sig", "requires", "ensures"):
+                mh = re.search(r"/\*@H:([\w#]+)\*/", fe.get("text") or "")
+                if m and m.get("fn") and mh:
+                    # the error is inside a woven proof hint (it names a local that was renamed, ...): drop that hint, keep verifying the function
+                    hk = ("%s|%s::%s" % (m["file"], m.get("impl", "-"), m["fn"]), mh.group(1))
+                    if hk not in drop_hints: drop_hints.add(hk); progressed = True
+                elif m and m.get("fn") and m.get("part") in ("body", "sig", "requires", "ensures"):
                     k = "%s|%s::%s" % (m["file"], m.get("impl", "-"), m["fn"])
                     if k not in stub and not fns_by_key.get(k, {}).get("external_body"):
                         stub.add(k); stub_reason[k] = "unsupported construct: %s" % fe["message"][:160]; progressed = True
